@@ -46,6 +46,6 @@ for pid in ids:
         os.makedirs(dst, exist_ok=True)
         for f in ('patch.diff', 'demo.py', 'notes.md'):
             shutil.copy(os.path.join(d, f), os.path.join(dst, f))
-        json.dump({'id': '%s-%s' % (PREFIX, pid), 'property': [pid], 'origin': 'independent sub-agent (given only the property text and its own worktree)',
+        json.dump({'id': '%s-%s' % (PREFIX, pid), 'property': [pid.split('-')[0]], 'origin': 'independent sub-agent (given only the property text and its own worktree)',
                    'needs': '', 'confirmed': 'scratch worktree %s: demo exit 0 clean, exit 1 patched (%s), baseline 308 stable tests all pass with the patch' % (WT, r1.stdout.decode()[-200:].strip().replace('\n', ' | ')),
                    'checks': {}}, open(os.path.join(dst, 'meta.json'), 'w'), indent=1)
